@@ -346,6 +346,9 @@ def run(ctx):
         rule_p2(ctx, F)
         rule_merge(ctx, F)
         rule_tiling(ctx, F)
+        # a reused EOF leaf ends the tree: its range veto must look to the end of the file (shared with C01.P6)
+        import C01
+        C01.rule_saturation(ctx, F)
         import C06
         sav = C06.ALIAS_READERS
         C06.ALIAS_READERS = [a for a in sav if a[0] == "ts_subtree_summarize_children"]
